@@ -318,10 +318,19 @@ func (p *sessProp) Run(ci interface{}) interface{} {
 	}
 	stopped := false
 	for k, op := range c.Ops {
+		if stopped && op.Op == "wait" {
+			// downtime: timers whose deadline passes now are due when the broker is back
+			time.Sleep(time.Duration(op.Ms) * time.Millisecond)
+			continue
+		}
 		if stopped && op.Op != "restart" {
 			continue
 		}
-		r.tick()
+		if op.Op != "restart" {
+			// (the time that passes until the broker is back is accounted for after the restart: nothing
+			// can be observed before)
+			r.tick()
+		}
 		switch op.Op {
 		case "connect":
 			if op.At > 0 && r.cur[op.ID] == nil && !r.ended[op.ID].IsZero() {
@@ -525,6 +534,10 @@ func (p *sessProp) Run(ci interface{}) interface{} {
 		case "stop":
 			done := make(chan struct{})
 			r.stopping = true
+			t0 := time.Now()
+			for _, sec := range []int{1, 2} { // timers started by the connection ends of the shutdown
+				r.deadlines = append(r.deadlines, t0.Add(time.Duration(sec)*time.Second))
+			}
 			atomic.StoreInt32(&r.b.mgrDown, 1)
 			go func() {
 				_ = r.b.Mgr.Stop()
@@ -578,7 +591,10 @@ func (p *sessProp) Run(ci interface{}) interface{} {
 			stopped = false
 			r.down = false
 			r.markers = 0
-			r.emit("ERestart", r.collect())
+			// the model's restart takes no time; what has become due during the downtime and during the
+			// start-up itself is published now: it belongs to the passage of time that follows
+			r.emit("ERestart", nil)
+			r.tick()
 		}
 	}
 	return r.obs
